@@ -290,20 +290,14 @@ func c07BoundsNotComparedWithEachOther(r *core.Report) {
 			// locals assigned from the request's Before / Until)
 			var before, until []types.Object
 			for x := f; x != nil; x = x.Parent {
-				for i := 0; ; i++ {
-					po := x.ParamObj(i)
-					if po == nil {
-						break
-					}
-					if !strings.Contains(po.Type().String(), "Signature") {
-						continue
-					}
-					switch strings.ToLower(po.Name()) {
-					case "before":
-						before = append(before, po)
-					case "until":
-						until = append(until, po)
-					}
+				if x.Type == nil || x.Type.Params == nil {
+					continue
+				}
+				if po := x.ParamByName("before"); po != nil && strings.Contains(po.Type().String(), "Signature") {
+					before = append(before, po)
+				}
+				if po := x.ParamByName("until"); po != nil && strings.Contains(po.Type().String(), "Signature") {
+					until = append(until, po)
 				}
 			}
 			ast.Inspect(a.Body, func(m ast.Node) bool {
@@ -757,7 +751,31 @@ func c19SlotLoopVariableOnlyStepsByOne(r *core.Report) {
 					return true
 				}
 				v := core.ObjOf(info, inc.X)
-				if v == nil || !strings.Contains(strings.ToLower(v.Name()), "slot") {
+				if v == nil {
+					return true
+				}
+				// the per-slot loop: its variable is handed, as the slot, to a block / transaction lookup in the body
+				// (a BlockRequest{Slot: v}, GetBlock(.., v), CalcEpochForSlot(v) ...)
+				isSlotLoop := false
+				ast.Inspect(fs.Body, func(k ast.Node) bool {
+					switch x := k.(type) {
+					case *ast.KeyValueExpr:
+						if id, ok := x.Key.(*ast.Ident); ok && id.Name == "Slot" && core.Mentions(info, x.Value, v) {
+							isSlotLoop = true
+						}
+					case *ast.CallExpr:
+						nm := core.CalleeName(info, x)
+						if strings.HasSuffix(nm, ".CalcEpochForSlot") || strings.HasSuffix(nm, ").GetBlock") {
+							for _, a := range x.Args {
+								if core.Mentions(info, a, v) {
+									isSlotLoop = true
+								}
+							}
+						}
+					}
+					return !isSlotLoop
+				})
+				if !isSlotLoop {
 					return true
 				}
 				li++
